@@ -279,6 +279,11 @@ func repetitionSeeds() []seed {
 		}
 		j, _ := gen.BuildJPEG(segs, true)
 		add("jpeg-5000-minimal-xmp-segments", "jpeg", j.B)
+		for i := 0; i < 15000; i++ {
+			segs = append(segs, gen.SegXMP([]byte("<x:xmpmeta/>")))
+		}
+		j, _ = gen.BuildJPEG(segs, true)
+		add("jpeg-20000-minimal-xmp-segments", "jpeg", j.B)
 		segs = nil
 		for i := 0; i < 20000; i++ {
 			segs = append(segs, gen.Seg{Marker: 0xFE, Payload: nil, Kind: "com"})
